@@ -139,6 +139,26 @@ def conf_threat(sc, base):
     return F(0) if sc[0] == "unit" else base[4] - abs(sc[1]) * F(3, 4)
 
 
+# How agent numbers 0..3 are spelled as agent ids.  An agent id is an opaque string: ids that differ only in case, in
+# Unicode normal form, in surrounding white space, in a leading zero, or where one is a prefix of the other / the empty
+# string name DIFFERENT agents (separate displays, watchers, tolerance records, memories of threats).
+ID_SCHEMES = {
+    "plain": ["a0", "a1", "a2", "a3"],
+    "case": ["agent-x", "Agent-X", "AGENT-X", "agent-x "],
+    "nfc": ["caf\u00e9", "cafe\u0301", "CAF\u00c9", "caf\u00e9\u200b"],
+    "num": ["7", "07", "7.0", " 7"],
+    "sub": ["w", "", "w ", "ww"],
+}
+ID_NUM = {s_: i for names in ID_SCHEMES.values() for i, s_ in enumerate(names)}
+
+
+def anum(agent_id):
+    """agent id -> its number on the protocol (whatever the spelling scheme)"""
+    if agent_id in ID_NUM:
+        return str(ID_NUM[agent_id])
+    return str(agent_id)[1:]
+
+
 REASONS = {"1": "reason", "0": "", "n": None, "z": 0, "l": [], "o": object(), "s0": "0"}
 
 
@@ -176,7 +196,7 @@ class C17(Prop):
         "d:canary-by-hand", "d:set-window", "d:set-min", "d:obs-by-hand",
         "m:pruned-old", "m:prune-kept", "m:imported", "m:import-full", "m:reimport", "m:roundtrip",
         "m:forgot", "m:forgot-nothing", "m:recall-hit", "m:recall-miss", "d:cleared",
-        "e:sysdef", "e:shadow", "e:sset", "e:rreg", "e:creg", "e:cexec", "e:cexec-failed", "e:cexec-unregistered", "e:unregistered", "k:health", "k:cell", "k:stats", "k:export", "k:repr", "k:agents", "k:tpeek",
+        "e:ids", "e:sysdef", "e:shadow", "e:sset", "e:rreg", "e:creg", "e:cexec", "e:cexec-failed", "e:cexec-unregistered", "e:unregistered", "k:health", "k:cell", "k:stats", "k:export", "k:repr", "k:agents", "k:tpeek",
     ]
     assumptions = [
         "fingerprint hashes are compared as opaque values (md5 prefixes treated as injective on the strings explored)",
@@ -314,6 +334,21 @@ class C17(Prop):
         prof = self.mk_profile(agent, pr)
         st["given"][id(prof)] = (prof, pr)
         return prof
+
+    def mutate_profile(self, st, prof, pr):
+        """the operator tunes the baseline the watcher holds IN PLACE (attribute by attribute, the hash sets through their
+        own methods): the same object, new bounds — from now on these are the bounds that were given"""
+        num = self.num
+        prof.output_length_bounds = (num(pr[0]), num(pr[1]))
+        prof.response_time_bounds = (num(pr[2]), num(pr[3]))
+        prof.confidence_bounds = (num(pr[4]), num(pr[5]))
+        prof.error_rate_max = num(pr[6])
+        prof.valid_vocabulary_hashes.clear()
+        prof.valid_vocabulary_hashes.update(f"v{x}" for x in pr[7])
+        prof.valid_structure_hashes.clear()
+        prof.valid_structure_hashes.update(f"s{x}" for x in pr[8])
+        prof.canary_accuracy_min = num(pr[9])
+        st["given"][id(prof)] = (prof, pr)
 
     def view_profile(self, st, prof):
         g = st["given"].get(id(prof))
@@ -462,7 +497,7 @@ class C17(Prop):
     def digest(self, S):
         """everything later operations can observe, read from public attributes (never through the accessors under test)"""
         sigs = list(S.memory.signatures)
-        mem = ";".join(f"{sg.agent_id[1:]}:{self.LV.get(sg.threat_level, '?')}:{self.AC.get(sg.effective_response, '?')}"
+        mem = ";".join(f"{anum(sg.agent_id)}:{self.LV.get(sg.threat_level, '?')}:{self.AC.get(sg.effective_response, '?')}"
                        for sg in sigs) or "-"
         order = ",".join(str(i) for i in sorted(range(len(sigs)), key=lambda i: sigs[i].last_accessed)) or "-"
         out = [f"mem={mem}", f"ord={order}", f"cap={S.memory.capacity}"]
@@ -478,7 +513,7 @@ class C17(Prop):
             else:
                 recent = rec.last_update is not None and (self.peek_now() - rec.last_update) < rec.update_tolerance_duration
                 rs = f"rec={rec.clean_inspections}/{rec.total_inspections}/{show_bool(recent)}"
-            out.append(f"{a}:{tcs}:{rs}")
+            out.append(f"a{anum(a)}:{tcs}:{rs}")
         return " ".join(out)
 
     @staticmethod
@@ -487,7 +522,7 @@ class C17(Prop):
         their numbers; hashes computed by a real display stand for the window they were stored for"""
         import re as _re
         try:
-            a = int(str(sg.agent_id)[1:])
+            a = int(anum(sg.agent_id))
         except Exception:
             return None
         v, sh = str(sg.vocabulary_hash), str(sg.structure_hash)
@@ -500,7 +535,7 @@ class C17(Prop):
         try:
             if kind == "health":
                 h = S.health()
-                ags = ",".join(f"{a[1:]}:{show_bool(v.get('trained'))}:{v.get('observations')}" for a, v in h["agents"].items())
+                ags = ",".join(f"{anum(a)}:{show_bool(v.get('trained'))}:{v.get('observations')}" for a, v in h["agents"].items())
                 ms = h["memory_stats"]
                 head = f"ok h={h['registered_agents']}/{h['trained_agents']}/{ms['stored']}/{ms['capacity']} {ags or '-'}"
             elif kind == "cell":
@@ -544,7 +579,7 @@ class C17(Prop):
         obs, extra = [], []
         st = {"tc": None, "treg": TR.RegulatoryTCell(rules=[], stability_threshold=100),
               "th": TH.Thymus(min_training_samples=10, tolerance=2.0, variance_threshold=0.5), "samples": [],
-              "ims": None, "trained_sets": {}, "sigkeys": {}, "cell": None, "given": {}}
+              "ims": None, "trained_sets": {}, "sigkeys": {}, "cell": None, "given": {}, "ids": "plain"}
 
         def ims():
             if st["ims"] is None:
@@ -567,12 +602,18 @@ class C17(Prop):
             fn(st["tc"])
             return "ok " + self.show_t(st["tc"])
 
+        def aid(x):
+            return ID_SCHEMES[st["ids"]][int(x)] if 0 <= int(x) < 4 else f"a{int(x)}"
+
         for line in case["lines"]:
             t = line.split()
             ex = None
             try:
                 op = t[0] if t else ""
-                if op == "tcell" and len(t) == 13:
+                if op == "ids" and len(t) == 2 and t[1] in ID_SCHEMES:
+                    st["ids"] = t[1]                 # how agent numbers are spelled as agent ids from here on
+                    o = "ok"
+                elif op == "tcell" and len(t) == 13:
                     pr = prof_parse(t[3:13])
                     st["tc"] = TC.TCell(profile=self.given_profile(st, "a", pr), repeated_anomaly_threshold=int(t[1]),
                                         anergy_threshold=int(t[2]))
@@ -595,6 +636,8 @@ class C17(Prop):
                                                  int(t[2])))
                 elif op == "tset" and len(t) == 12 and t[1] == "profile":
                     o = tstep(lambda tc: setattr(tc, "profile", self.given_profile(st, "a", prof_parse(t[2:12]))))
+                elif op == "tmut" and len(t) == 11:
+                    o = tstep(lambda tc: self.mutate_profile(st, tc.profile, prof_parse(t[1:11])))
                 elif op == "treset" and len(t) == 1:
                     o = tstep(lambda tc: tc.reset())
                 elif op == "tresetfa" and len(t) == 1:
@@ -653,13 +696,13 @@ class C17(Prop):
                     ims().window_size, ims().min_observations = int(t[1]), int(t[2])     # read by register_agent
                     o = "ok"
                 elif op == "rreg" and len(t) == 2:
-                    ims().register_agent(f"a{int(t[1])}")        # the display register_agent creates is kept
+                    ims().register_agent(aid(t[1]))        # the display register_agent creates is kept
                     o = "ok"
                 elif op == "creg" and len(t) == 2:
-                    cell(True).register_agent(f"a{int(t[1])}")   # through the wrapper that owns the immune system
+                    cell(True).register_agent(aid(t[1]))   # through the wrapper that owns the immune system
                     o = "ok"
                 elif op == "cexec" and len(t) == 9:
-                    a = f"a{int(t[1])}"
+                    a = aid(t[1])
                     d = ims().displays.get(a)
                     if d is not None and not isinstance(d, self.DISP.MHCDisplay):
                         o = "no-display"
@@ -693,17 +736,17 @@ class C17(Prop):
                         else:
                             o = ("ok" if res.success else "failed") + f" n={len(d.observations)}"
                 elif op == "reg" and len(t) == 2:
-                    a = f"a{int(t[1])}"
+                    a = aid(t[1])
                     ims().register_agent(a)
                     ims().displays[a] = _Stub(a)
                     o = "ok"
                 elif op == "dreg" and len(t) == 4:
-                    a = f"a{int(t[1])}"
+                    a = aid(t[1])
                     ims().register_agent(a)
                     ims().displays[a] = self.DISP.MHCDisplay(agent_id=a, window_size=int(t[2]), min_observations=int(t[3]))
                     o = "ok"
                 elif op == "obs" and len(t) == 12:
-                    a = f"a{int(t[1])}"
+                    a = aid(t[1])
                     d = ims().displays.get(a)
                     if d is None:                                  # never registered: the real entry point answers
                         ims().record_observation(a, "x", float(F(t[6])), float(F(t[7])), None)
@@ -724,7 +767,7 @@ class C17(Prop):
                         ims().record_observation(a, text, self.num(t[6]), self.num(t[7]), err)
                         o = f"ok n={len(d.observations)}"
                 elif op == "canary" and len(t) == 3:
-                    a = f"a{int(t[1])}"
+                    a = aid(t[1])
                     d = ims().displays.get(a)
                     if d is None:
                         ims().record_canary_result(a, t[2] == "1")
@@ -734,11 +777,11 @@ class C17(Prop):
                     else:
                         ims().record_canary_result(a, t[2] == "1")
                         o = "ok"
-                elif op == "show" and len(t) in (3, 12) and isinstance(ims().displays.get(f"a{int(t[1])}"), self.DISP.MHCDisplay) \
+                elif op == "show" and len(t) in (3, 12) and isinstance(ims().displays.get(aid(t[1])), self.DISP.MHCDisplay) \
                         and (len(t) == 12 or t[2] == "none"):
                     o = "bad-op"
                 elif op == "show" and len(t) in (3, 12):
-                    a = f"a{int(t[1])}"
+                    a = aid(t[1])
                     if a not in ims().displays:
                         o = "unregistered"
                     elif len(t) == 3 and t[2] == "none":
@@ -751,7 +794,7 @@ class C17(Prop):
                     else:
                         o = "bad-op"
                 elif op == "train" and len(t) == 2:
-                    a = f"a{int(t[1])}"
+                    a = aid(t[1])
                     try:
                         res = ims().train_agent(a)
                         o = {"POSITIVE": "positive", "ANERGIC": "anergic", "INSUFFICIENT_DATA": "insufficient"}.get(res.name, "?")
@@ -767,7 +810,7 @@ class C17(Prop):
                         o = "raise:ValueError"
                 elif op == "pinspect" and len(t) == 2:
                     n = int(t[1])
-                    a = f"a{n}"
+                    a = aid(n)
                     S = ims()
                     tc = S.tcells.get(a)
                     disp = S.displays.get(a)
@@ -825,10 +868,10 @@ class C17(Prop):
                                     (bool(s_.suppressed), self.AC.get(s_.original_action, "?"),
                                      self.AC.get(s_.modified_action, "?"))) for a_, s_ in self.eval_log]
                 elif op == "pflag" and len(t) == 3:
-                    ims().flag_agent(f"a{int(t[1])}", REASONS[t[2]])
+                    ims().flag_agent(aid(t[1]), REASONS[t[2]])
                     o = "ok"
                 elif op == "dclear" and len(t) == 2:
-                    d = ims().displays.get(f"a{int(t[1])}")
+                    d = ims().displays.get(aid(t[1]))
                     if not isinstance(d, self.DISP.MHCDisplay):
                         o = "no-display"
                     else:
@@ -836,7 +879,7 @@ class C17(Prop):
                         o = f"ok n={len(d.observations)}"
                 elif op == "dcan" and len(t) == 3 and t[2] in ("a1", "a0", "clear", "assign", "keep1", "pop0"):
                     # the public list `display.canary_results` touched by hand (not through record_canary_result)
-                    d = ims().displays.get(f"a{int(t[1])}")
+                    d = ims().displays.get(aid(t[1]))
                     if not isinstance(d, self.DISP.MHCDisplay):
                         o = "no-display"
                     else:
@@ -852,14 +895,14 @@ class C17(Prop):
                             d.canary_results.pop(0)
                         o = f"ok c={len(d.canary_results)}"
                 elif op == "dset" and len(t) == 4 and t[2] in ("window", "min"):
-                    d = ims().displays.get(f"a{int(t[1])}")
+                    d = ims().displays.get(aid(t[1]))
                     if not isinstance(d, self.DISP.MHCDisplay):
                         o = "no-display"
                     else:
                         setattr(d, "window_size" if t[2] == "window" else "min_observations", int(t[3]))
                         o = "ok"
                 elif op == "dobs" and len(t) == 6 and t[2] in ("pop0", "dellast", "dup"):
-                    d = ims().displays.get(f"a{int(t[1])}")
+                    d = ims().displays.get(aid(t[1]))
                     if not isinstance(d, self.DISP.MHCDisplay):
                         o = "no-display"
                     else:
@@ -872,30 +915,37 @@ class C17(Prop):
                             d.observations.append(_copy.copy(d.observations[-1]))
                         o = f"ok n={len(d.observations)}"
                 elif op == "mrecall" and len(t) == 4:
-                    q = self.MEM.ThreatSignature(agent_id=f"a{int(t[1])}", vocabulary_hash=f"v{int(t[2])}",
+                    q = self.MEM.ThreatSignature(agent_id=aid(t[1]), vocabulary_hash=f"v{int(t[2])}",
                                                  structure_hash=f"s{int(t[3])}", violation_types=(),
                                                  threat_level=self.T.ThreatLevel.CONFIRMED,
                                                  effective_response=self.T.ResponseAction.ISOLATE)
                     hit = ims().memory.recall(q)
                     o = "miss" if hit is None else f"hit {self.LV.get(hit.threat_level, '?')} {self.AC.get(hit.effective_response, '?')}"
                 elif op in ("preset", "presetfa") and len(t) == 2:
-                    tc = ims().tcells.get(f"a{int(t[1])}")
+                    tc = ims().tcells.get(aid(t[1]))
                     if tc is not None:
                         tc.reset() if op == "preset" else tc.reset_without_confirmation()
                     o = "ok"
                 elif op == "unrec" and len(t) == 2:
-                    ims().treg.records.pop(f"a{int(t[1])}", None)
+                    ims().treg.records.pop(aid(t[1]), None)
                     o = "ok"
                 elif op == "pset" and len(t) == 4 and t[2] in ("rep", "anergy"):
-                    tc = ims().tcells.get(f"a{int(t[1])}")
+                    tc = ims().tcells.get(aid(t[1]))
                     if tc is not None:
                         setattr(tc, "repeated_anomaly_threshold" if t[2] == "rep" else "anergy_threshold", int(t[3]))
                     o = "ok"
                 elif op == "pset" and len(t) == 13 and t[2] == "profile":
-                    a = f"a{int(t[1])}"
+                    a = aid(t[1])
                     tc = ims().tcells.get(a)
                     if tc is not None:
                         tc.profile = self.given_profile(st, a, prof_parse(t[3:13]))
+                        st["trained_sets"].pop(a, None)
+                    o = "ok"
+                elif op == "pmut" and len(t) == 12:
+                    a = aid(t[1])
+                    tc = ims().tcells.get(a)
+                    if tc is not None:
+                        self.mutate_profile(st, tc.profile, prof_parse(t[2:12]))
                         st["trained_sets"].pop(a, None)
                     o = "ok"
                 elif op == "gset" and len(t) >= 2:
@@ -910,7 +960,7 @@ class C17(Prop):
                     ims().thymus.variance_threshold = float(F(t[2]))
                     o = "ok"
                 elif op == "updated" and len(t) == 2:
-                    ims().mark_agent_updated(f"a{int(t[1])}")
+                    ims().mark_agent_updated(aid(t[1]))
                     o = "ok"
                 elif op == "expire" and len(t) == 1:
                     self.tick += 7_200_000_000
@@ -924,7 +974,7 @@ class C17(Prop):
                         f_ = it.split(":")
                         if len(f_) != 6:
                             continue
-                        data.append({"agent_id": f"a{int(f_[0])}", "vocabulary_hash": f"v{int(f_[1])}",
+                        data.append({"agent_id": aid(f_[0]), "vocabulary_hash": f"v{int(f_[1])}",
                                      "structure_hash": f"s{int(f_[2])}", "violation_types": ["imported"],
                                      "threat_level": self.LV_R[f_[3]].value, "effective_response": self.AC_R[f_[4]].value,
                                      "created_at": (self.peek_clock() - _dt.timedelta(hours=int(f_[5]))).isoformat(),
@@ -969,7 +1019,7 @@ class C17(Prop):
                     o = f"ok mem={len(m.signatures)}"
                 elif op == "mforget" and len(t) == 3 and t[1] == "agent":
                     m = ims().memory
-                    m.signatures = [sg for sg in m.signatures if sg.agent_id != f"a{int(t[2])}"]
+                    m.signatures = [sg for sg in m.signatures if sg.agent_id != aid(t[2])]
                     o = f"ok mem={len(m.signatures)}"
                 else:
                     o = "bad-op"
@@ -1057,6 +1107,8 @@ class C17(Prop):
             elif op == "pflag" and len(t) == 3 and o == "ok":
                 if has_watcher.get(int(t[1])):
                     op_flag[int(t[1])] = t[2] in ("1", "o", "s0")     # a reason was really given
+            elif op == "pmut" and len(t) == 12:
+                fresh_trained[int(t[1])] = False
             elif op == "pset" and len(t) >= 3:
                 if t[2] == "rep":
                     assigned_rep[int(t[1])] = True
@@ -1247,7 +1299,7 @@ class C17(Prop):
                     lines.append(f"tset rep {rng.choice([1, 2, 3, 3, 5, 0])}")
                 else:
                     pr = self.gen_profile(rng)
-                    lines.append("tset profile " + " ".join(prof_tokens(pr)))
+                    lines.append(rng.choice(["tset profile ", "tset profile ", "tmut "]) + " ".join(prof_tokens(pr)))
             elif x < 0.76:
                 lines.append("flag " + rng.choice(self.FLAGS))
             elif x < 0.84:
@@ -1493,7 +1545,7 @@ class C17(Prop):
             pr = self.gen_profile(rng)
             if a in prof:
                 prof[a] = pr
-            return f"pset {a} profile " + " ".join(prof_tokens(pr))
+            return rng.choice([f"pset {a} profile ", f"pset {a} profile ", f"pmut {a} "]) + " ".join(prof_tokens(pr))
         if x < 0.85:
             rules = [f"{rng.choice(LEVELS)}:{rng.choice(CONDS[:-1])}" for _ in range(rng.choice([0, 1, 2]))]
             return " ".join(["gset", str(rng.choice([100, 2, 0, 3]))] + rules)
@@ -2147,6 +2199,10 @@ class C17(Prop):
                 for _ in range(rng.choice([1, 1, 2])):
                     L.insert(rng.randint(1, len(L)), "shadow")
                 c = dict(c, lines=L, note=c.get("note", "") + " + other objects alive")
+            if rng.random() < 0.15 and c["lines"] and c["lines"][0].split(" ")[0] in ("sys", "sysdef"):
+                L = list(c["lines"])                     # agent ids that differ only in case / normal form / white space / …
+                L.insert(1, "ids " + rng.choice([k for k in ID_SCHEMES if k != "plain"]))
+                c = dict(c, lines=L, note=c.get("note", "") + " + look-alike agent ids")
             produced += 1
             yield c
 
